@@ -44,6 +44,21 @@ NEEDS = {
  "C18-6": "a byte >= 2 at a boolean / Option-tag position inside Vec<bool>, [bool;N], Vec<Option<T>> (elements are read unchecked) or through an unchecked entry point",
  "C18-7": "a VecDeque whose ring buffer has wrapped (push_front after push_back, FIFO use): only the first slice is serialized",
  "C18-8": "GeneralEvaluationDomain holding a MixedRadix domain (field with a small subgroup, size beyond the 2-adic part): decoded as Radix2",
+ "C05-9": "make_digits last-limb guard: window straddling the last limb boundary loses its high bits (4-limb fields: n = 32, 129..256, > 1024)",
+ "C05-10": "msm_unchecked with strictly more bases than scalars: panics instead of truncating",
+ "C05-11": "parallel build only: digit loop over par_chunks_exact drops the remainder (n not a multiple of n/threads)",
+ "C09-9": "a curve point inside a mode-pinning wrapper asked for its size in the other mode (same slip as C18-1, found independently)",
+ "C09-10": "buffer_byte_size = bits/8+1: moduli whose bit length (or bit length + flag bits) is a multiple of 8 get an extra ignored byte: 256 encodings per element",
+ "C09-11": "short Weierstrass curve with a point of order two (y = 0), compressed, unchecked: early Legendre reject treats 0 as non-residue",
+ "C10-9": "a batch (Vec/array) of PairingOutput with at least two non-members whose product lies in the target group (f and f^-1): one aggregate check on the product",
+ "C10-10": "an invalid point stored as a BTreeMap value where the map is itself an element of a batch-validated container",
+ "C10-11": "capacity cap overflow (as C18-2, found independently)",
+ "C14-9": "parallel MSM early path over par_chunks_exact(size/threads): size/threads >= 128 and a remainder (257 pairs on 2 threads)",
+ "C14-10": "parallel BLS12 multi_miller_loop with chunk size from the pool: every pair contains an identity or the input is empty: par_chunks_mut(0) panics",
+ "C14-11": "parallel batch_inversion_and_mul fast path for len <= threads drops coeff",
+ "C18-9": "[T;N] with N >= 2 and value-dependent element sizes: serialized_size = N * first element",
+ "C18-10": "a String longer than 2^20 bytes: the reservation cap misused as the read length",
+ "C18-11": "BigUint payload written with write instead of write_all: short writes, Interrupted",
 }
 conf = {}
 for f in ['/verif/seeded/confirmations.txt']:
@@ -59,7 +74,7 @@ for d in sorted(glob.glob('/verif/seeded/C*')):
     caught = {p: (r['exit'] == 1 and r['VIOLATION_lines'] > 0) for p, r in cr.items()}
     meta = {
         "id": sid, "property": sid.split('-')[0], "title": title,
-        "written_by": "independent sub-agent given only the property text and its own scratch worktree (round %d)" % (1 if int(sid.split('-')[1]) <= 2 else 2 if int(sid.split('-')[1]) <= 5 else 3),
+        "written_by": "independent sub-agent given only the property text and its own scratch worktree (round %d)" % (1 if int(sid.split('-')[1]) <= 2 else 2 if int(sid.split('-')[1]) <= 5 else 3 if int(sid.split('-')[1]) <= 8 else 4),
         "needs_to_manifest": NEEDS.get(sid, ""),
         "files": ["patch.diff", "demo.rs", "notes.md"] + (["demo_crate/"] if os.path.isdir(d+'/demo_crate') else []) + (["example_replay.json"] if os.path.exists(d+'/example_replay.json') else []),
         "my_confirmation": conf.get(sid, "pending"),
